@@ -7,6 +7,11 @@
 //	exec   : RetentionHandler.ExecutePolicy (the scheduler's entry point)
 //	direct : the unexported deleteOldFiles with exact cutoffs around a file's max(time) (in-package accessor)
 //	cycle  : real compaction.Job (daily tier) -> dry run -> run -> real compaction.Job -> run
+//	hist   : HISTORIES on one long-lived handler: 2-3 passes with content changes under the same path,
+//	         removals, additions and clock steps between them, judged after every pass (hist.go)
+//
+// Every case (and every history) gets a FRESH RetentionHandler on its own SQLite file, so cases are
+// independent of each other whatever a handler remembers.
 //
 // retention.go reads the clock through the vclock shim (overlay "time": true), so the policy cutoff
 // now-(retention_days+buffer_days) is an exact, frozen instant C(+offset) chosen by the harness.
@@ -38,6 +43,7 @@ import (
 	"runtime/pprof"
 	"sort"
 	"strings"
+	"syscall"
 	"time"
 
 	"github.com/basekick-labs/arc/internal/api"
@@ -199,6 +205,7 @@ type kase struct {
 	Policy  int       `json:"policy"`           // http/exec/cycle: index into policies; direct: index into slots (the target)
 	DeltaNS int64     `json:"cutoff_offset_ns"` // cutoff = C + offset
 	Files   []fileRef `json:"files"`
+	Hist    []hop     `json:"hist,omitempty"` // mode hist: the operations on ONE long-lived handler (hist.go); Files = the static background
 	ord     int       // position of the layout in its sweep (simplest first); orders the task list
 }
 
@@ -230,7 +237,9 @@ func (k kase) head() string {
 	return fmt.Sprintf("%s|%s|%s|cutoff=C%+dns", k.Mode, k.Backend, k.scope(), k.DeltaNS)
 }
 
-func (k kase) sig(kind string) string { return kind + "|" + k.head() + "|files=" + filesString(k.Files) }
+func (k kase) sig(kind string) string {
+	return kind + "|" + k.head() + "|files=" + filesString(k.Files)
+}
 
 // target: the database and measurement ("" = every measurement) the case's retention run is aimed at.
 func (k kase) target() (string, string) {
@@ -409,6 +418,12 @@ func buildTasks(run *ev.Run) (tasks []kase, dims map[string]any) {
 			}
 		}
 	}
+	ht, hdims, hrule := buildHistTasks(run.Quick())
+	tasks = append(tasks, ht...)
+	for k, v := range hdims {
+		dims[k] = v
+	}
+	dims["hist_rule"] = hrule
 	// simplest layouts first across all sweeps, so that a run stopped by the time cap has covered every
 	// mode/policy on the simpler layouts
 	sort.SliceStable(tasks, func(i, j int) bool { return tasks[i].ord < tasks[j].ord })
@@ -458,6 +473,12 @@ func (b *prefixBackend) List(ctx context.Context, prefix string) ([]string, erro
 
 func (b *prefixBackend) Type() string { return "verif-prefix" }
 
+type sqliteTemplate struct {
+	path  string
+	id    int64
+	bytes []byte
+}
+
 type handlerSet struct {
 	h   *api.RetentionHandler
 	app *fiber.App
@@ -468,51 +489,49 @@ type worker struct {
 	root, store string
 	arcdb       *database.DuckDB
 	jobDB       *sql.DB
-	hs          map[string]*handlerSet
+	be          map[string]storage.Backend
+	cur         *handlerSet // the handler of the case being judged: every case gets a fresh one, so cases are independent of each other
+	caseSeq     int
 	fixture     map[string][][][]byte // measurement -> type -> dup -> bytes
 	seq         int
 	stats       map[string]int64
+	// hist mode (hist.go)
+	aw              *ingest.ArrowWriter
+	memo            map[string]*hcontent
+	refSeq, histSeq int
+	refMemo         map[string]refResult
+	tmpl            map[int]sqliteTemplate
+	cpu             map[string]time.Duration // debug output only
 }
 
 func newWorker() *worker {
 	tw := time.Now()
-	w := &worker{root: scratch, store: filepath.Join(scratch, "store"), hs: map[string]*handlerSet{}, stats: map[string]int64{}}
+	w := &worker{root: scratch, store: filepath.Join(scratch, "store"), stats: map[string]int64{}, memo: map[string]*hcontent{}, refMemo: map[string]refResult{}, tmpl: map[int]sqliteTemplate{}, cpu: map[string]time.Duration{}}
 	must(os.MkdirAll(w.store, 0o755), "mkdir")
 	must(os.Chdir(w.store), "chdir") // for the prefix backend (DuckDB resolves relative keys against the cwd)
 	lg := zerolog.Nop()
 	be, err := storage.NewLocalBackend(w.store, lg)
 	must(err, "storage.NewLocalBackend")
-	db, err := database.New(&database.Config{
-		MaxConnections:   2,
-		MemoryLimit:      "512MB",
-		ThreadCount:      1,
-		TempDirectory:    filepath.Join(w.root, "spill"),
-		UploadDir:        filepath.Join(w.root, "upload"),
-		LocalStorageRoot: be.GetBasePath(),
-	}, lg)
+	// database.New configures DuckDB under its own short timeouts; on a heavily loaded machine it can run into
+	// them ("context deadline exceeded"), which says nothing about the property: try again a few times
+	var db *database.DuckDB
+	for attempt := 0; ; attempt++ {
+		db, err = database.New(&database.Config{
+			MaxConnections:   2,
+			MemoryLimit:      "512MB",
+			ThreadCount:      1,
+			TempDirectory:    filepath.Join(w.root, "spill"),
+			UploadDir:        filepath.Join(w.root, "upload"),
+			LocalStorageRoot: be.GetBasePath(),
+		}, lg)
+		if err == nil || attempt >= 5 || !strings.Contains(err.Error(), "deadline exceeded") {
+			break
+		}
+		time.Sleep(time.Duration(attempt+1) * time.Second)
+	}
 	must(err, "database.New")
 	w.arcdb = db
-	for name, b := range map[string]storage.Backend{"local": be, "prefix": &prefixBackend{be}} {
-		h, err := api.NewRetentionHandler(b, db, &config.RetentionConfig{Enabled: true, DBPath: filepath.Join(w.root, "retention_"+name+".db")}, nil, nil, lg)
-		must(err, "api.NewRetentionHandler")
-		set := &handlerSet{h: h, app: fiber.New(fiber.Config{DisableStartupMessage: true})}
-		h.RegisterRoutes(set.app)
-		for i, p := range policies {
-			body := map[string]any{"name": fmt.Sprintf("p%d", i), "database": p.DB, "retention_days": p.R, "buffer_days": p.B, "is_active": true}
-			if p.M != "" {
-				body["measurement"] = p.M
-			}
-			st, raw := post(set.app, "/api/v1/retention/", body)
-			var created struct {
-				ID int64 `json:"id"`
-			}
-			if st != 201 || json.Unmarshal(raw, &created) != nil || created.ID == 0 {
-				must(fmt.Errorf("HTTP %d %s", st, raw), "create retention policy")
-			}
-			set.ids = append(set.ids, created.ID)
-		}
-		w.hs[name] = set
-	}
+	w.be = map[string]storage.Backend{"local": be, "prefix": &prefixBackend{be}}
 	tf := time.Now()
 	w.makeFixtures()
 	if os.Getenv("VERIF_C11_DEBUG") != "" {
@@ -521,10 +540,34 @@ func newWorker() *worker {
 	return w
 }
 
-func (w *worker) close() {
-	for _, s := range w.hs {
-		s.h.Close()
+// newSet: a fresh RetentionHandler (its own SQLite file) behind a fiber app, with every policy of `policies`
+// (only < 0) or just policies[only] created through the real POST route.
+func (w *worker) newSet(b storage.Backend, db *database.DuckDB, dbPath string, only int) *handlerSet {
+	h, err := api.NewRetentionHandler(b, db, &config.RetentionConfig{Enabled: true, DBPath: dbPath}, nil, nil, zerolog.Nop())
+	must(err, "api.NewRetentionHandler")
+	set := &handlerSet{h: h, app: fiber.New(fiber.Config{DisableStartupMessage: true}), ids: make([]int64, len(policies))}
+	h.RegisterRoutes(set.app)
+	for i, p := range policies {
+		if only >= 0 && i != only {
+			continue
+		}
+		body := map[string]any{"name": fmt.Sprintf("p%d", i), "database": p.DB, "retention_days": p.R, "buffer_days": p.B, "is_active": true}
+		if p.M != "" {
+			body["measurement"] = p.M
+		}
+		st, raw := post(set.app, "/api/v1/retention/", body)
+		var created struct {
+			ID int64 `json:"id"`
+		}
+		if st != 201 || json.Unmarshal(raw, &created) != nil || created.ID == 0 {
+			must(fmt.Errorf("HTTP %d %s", st, raw), "create retention policy")
+		}
+		set.ids[i] = created.ID
 	}
+	return set
+}
+
+func (w *worker) close() {
 	w.arcdb.Close()
 	if w.jobDB != nil {
 		w.jobDB.Close()
@@ -731,15 +774,17 @@ func slotOf(rel string) int {
 	return -1
 }
 
-func (w *worker) wipe() {
-	ents, _ := os.ReadDir(w.store)
+func wipeDir(root string) {
+	ents, _ := os.ReadDir(root)
 	for _, e := range ents {
-		os.RemoveAll(filepath.Join(w.store, e.Name()))
+		os.RemoveAll(filepath.Join(root, e.Name()))
 	}
 }
 
-func (w *worker) materialise(files []fileRef) state {
-	w.wipe()
+func (w *worker) materialise(files []fileRef) state { return w.materialiseAt(w.store, files) }
+
+func (w *worker) materialiseAt(root string, files []fileRef) state {
+	wipeDir(root)
 	st := state{}
 	dup := map[fileRef]int{}
 	for _, f := range files {
@@ -751,7 +796,7 @@ func (w *worker) materialise(files []fileRef) state {
 		s, t := slots[f.Slot], &ftypes[f.Type]
 		rel := fmt.Sprintf("%s/%s/%s/%s", s.DB, s.M, t.dir(), t.fileName(s.M, f.Type, d))
 		b := w.fixture[s.M][f.Type][d]
-		p := filepath.Join(w.store, rel)
+		p := filepath.Join(root, rel)
 		must(os.MkdirAll(filepath.Dir(p), 0o755), "mkdir")
 		must(os.WriteFile(p, b, 0o644), "write fixture")
 		rows := t.rows(f.Type, d)
@@ -763,13 +808,15 @@ func (w *worker) materialise(files []fileRef) state {
 
 // scan reads the store; a file whose bytes are unchanged keeps its known rows, anything else is decoded
 // with the independent reader.
-func (w *worker) scan(prev state) state {
+func (w *worker) scan(prev state) state { return scanAt(w.store, prev) }
+
+func scanAt(root string, prev state) state {
 	st := state{}
-	filepath.WalkDir(w.store, func(p string, d os.DirEntry, err error) error {
+	filepath.WalkDir(root, func(p string, d os.DirEntry, err error) error {
 		if err != nil || d.IsDir() {
 			return nil
 		}
-		rel, _ := filepath.Rel(w.store, p)
+		rel, _ := filepath.Rel(root, p)
 		rel = filepath.ToSlash(rel)
 		b, rerr := os.ReadFile(p)
 		if rerr != nil {
@@ -852,14 +899,8 @@ type execResp struct {
 	Error                string   `json:"error"`
 }
 
-func (w *worker) setClock(k kase) {
-	p := policies[k.Policy]
-	vclock.Install(time.Unix(0, k.cutoffNS()+int64(p.R+p.B)*dayNS))
-	vclock.SetTick(0) // frozen: every reading of the clock inside retention.go returns the same instant
-}
-
 func (w *worker) retain(k kase, dry bool) report {
-	set := w.hs[k.Backend]
+	set := w.cur
 	ctx := context.Background()
 	switch k.Mode {
 	case "direct":
@@ -871,27 +912,41 @@ func (w *worker) retain(k kase, dry bool) report {
 		}
 		return r
 	case "exec":
-		w.setClock(k)
-		defer vclock.Uninstall()
-		resp, err := set.h.ExecutePolicy(ctx, set.ids[k.Policy])
+		return w.runPass(set, k.Policy, k.cutoffNS(), "exec")
+	default: // http, cycle
+		if dry {
+			return w.runPass(set, k.Policy, k.cutoffNS(), "dry")
+		}
+		return w.runPass(set, k.Policy, k.cutoffNS(), "run")
+	}
+}
+
+// runPass: one retention pass of policies[pol] on the given handler with the clock frozen so that the
+// policy's cutoff is exactly cutoffNS. how: dry = POST execute {dry_run}, run = POST execute {confirm},
+// exec = ExecutePolicy (the scheduler's entry point).
+func (w *worker) runPass(set *handlerSet, pol int, cutoffNS int64, how string) report {
+	p := policies[pol]
+	vclock.Install(time.Unix(0, cutoffNS+int64(p.R+p.B)*dayNS))
+	vclock.SetTick(0) // frozen: every reading of the clock inside retention.go returns the same instant
+	defer vclock.Uninstall()
+	if how == "exec" {
+		resp, err := set.h.ExecutePolicy(context.Background(), set.ids[pol])
 		if err != nil {
 			return report{Err: err.Error()}
 		}
 		m := append([]string{}, resp.AffectedMeasurements...)
 		sort.Strings(m)
 		return report{OK: true, Files: resp.FilesDeleted, Rows: resp.DeletedCount, Meas: m, Cutoff: resp.CutoffDate}
-	default: // http, cycle
-		w.setClock(k)
-		defer vclock.Uninstall()
-		st, raw := post(set.app, fmt.Sprintf("/api/v1/retention/%d/execute", set.ids[k.Policy]), map[string]any{"dry_run": dry, "confirm": !dry})
-		var e execResp
-		if err := json.Unmarshal(raw, &e); err != nil || st != 200 || e.DryRun != dry {
-			return report{HTTPCode: st, Err: fmt.Sprintf("HTTP %d %s", st, strings.TrimSpace(string(raw)))}
-		}
-		m := append([]string{}, e.AffectedMeasurements...)
-		sort.Strings(m)
-		return report{OK: true, HTTPCode: st, Files: e.FilesDeleted, Rows: e.DeletedCount, Meas: m, Cutoff: e.CutoffDate}
 	}
+	dry := how == "dry"
+	st, raw := post(set.app, fmt.Sprintf("/api/v1/retention/%d/execute", set.ids[pol]), map[string]any{"dry_run": dry, "confirm": !dry})
+	var e execResp
+	if err := json.Unmarshal(raw, &e); err != nil || st != 200 || e.DryRun != dry {
+		return report{HTTPCode: st, Err: fmt.Sprintf("HTTP %d %s", st, strings.TrimSpace(string(raw)))}
+	}
+	m := append([]string{}, e.AffectedMeasurements...)
+	sort.Strings(m)
+	return report{OK: true, HTTPCode: st, Files: e.FilesDeleted, Rows: e.DeletedCount, Meas: m, Cutoff: e.CutoffDate}
 }
 
 // ---- the oracle ---------------------------------------------------------------------------------------
@@ -993,7 +1048,18 @@ func judgeTransition(o *outcome, phase string, before, after state, covered map[
 }
 
 func (w *worker) judge(k kase) *outcome {
+	if k.Mode == "hist" {
+		return w.judgeHist(k)
+	}
 	o := &outcome{Kinds: map[string]string{}, Culprit: map[string]string{}}
+	pol := k.Policy
+	if k.Mode == "direct" {
+		pol = 0 // deleteOldFiles takes no policy
+	}
+	w.caseSeq++
+	dbp := filepath.Join(w.root, "hdb", fmt.Sprintf("c%d.db", w.caseSeq))
+	w.cur = w.freshSet(w.be[k.Backend], dbp, pol)
+	defer func() { w.cur.h.Close(); os.Remove(dbp); w.cur = nil }()
 	sortFiles(k.Files)
 	covered := k.covered()
 	cutoffNS := k.cutoffNS()
@@ -1143,7 +1209,23 @@ func sortedKinds(o *outcome) []string {
 	return ks
 }
 
+// cpuNow: user+system CPU time of this process so far (debug output only).
+func cpuNow() time.Duration {
+	var ru syscall.Rusage
+	syscall.Getrusage(syscall.RUSAGE_SELF, &ru)
+	return time.Duration(ru.Utime.Nano() + ru.Stime.Nano())
+}
+
+type sampleList struct{ s []any }
+
+func (l *sampleList) Len() int  { return len(l.s) }
+func (l *sampleList) Add(x any) { l.s = append(l.s, x) }
+
 func sample(k kase, o *outcome) map[string]any {
+	if k.Mode == "hist" {
+		return map[string]any{"case": k.head(), "history": histString(k.Hist), "background": filesString(k.Files), "files_that_had_to_go_at_confirmed_passes": o.MustDelete,
+			"files_removed": o.Deleted, "rows_removed": o.DeletedRow, "last_dry_run_reported_files": o.DryFiles, "last_dry_run_reported_rows": o.DryRows, "violated": sortedKinds(o)}
+	}
 	return map[string]any{"case": k.head(), "files": filesString(k.Files), "files_that_must_go": o.MustDelete, "files_removed": o.Deleted, "rows_removed": o.DeletedRow,
 		"dry_run_reported_files": o.DryFiles, "dry_run_reported_rows": o.DryRows, "violated": sortedKinds(o)}
 }
@@ -1163,6 +1245,12 @@ func main() {
 	os.RemoveAll(scratch)
 	must(os.MkdirAll(scratch, 0o755), "scratch")
 	tasks, dims := buildTasks(run)
+	if os.Getenv("VERIF_C11_COUNT") != "" { // debug: the size of the space, nothing is run
+		b, _ := json.MarshalIndent(dims, "", " ")
+		fmt.Printf("tasks=%d\n%s\n", len(tasks), b)
+		cleanup()
+		return
+	}
 
 	if run.Replay != "" {
 		replay(run)
@@ -1181,6 +1269,7 @@ func main() {
 		modeNS := map[string]time.Duration{}
 		counters := map[string]int64{}
 		samples := ev.NewSamples(1)
+		histSamples := &sampleList{}
 		complete := true
 		// work is handed out dynamically in chunks of 8 consecutive tasks (a chunk belongs to the process that
 		// creates its claim file), so a worker starved of CPU does not hold the others back; cases are
@@ -1211,9 +1300,11 @@ func main() {
 				}
 				owned = c
 			}
-			t1 := time.Now()
+			t1, c1 := time.Now(), cpuNow()
 			o := w.judge(k)
 			modeNS[k.Mode+"_"+k.Backend] += time.Since(t1)
+			modeNS[k.Mode+"_"+k.Backend+"_cpu"] += cpuNow() - c1
+			modeNS[k.Mode+"_"+k.Backend+"_n"]++
 			if o.Skipped != "" {
 				counters["skipped"]++
 				continue
@@ -1231,6 +1322,15 @@ func main() {
 			if o.NonTrivial && i%(97*16) == 48 {
 				samples.Add(sample(k, o))
 			}
+			if k.Mode == "hist" {
+				counters["hist_evals"]++
+				if o.NonTrivial {
+					counters["hist_nontrivial"]++
+					if histSamples.Len() == 0 && len(k.Hist) >= 5 {
+						histSamples.Add(sample(k, o))
+					}
+				}
+			}
 			for _, kind := range sortedKinds(o) {
 				counters["failing_case_oracle_pairs"]++
 				run.Violate(fmt.Sprintf("%s|%s|%s|cutoff=C%+dns|culprit=%s", kind, k.Mode, k.shape(), k.DeltaNS, k.roleCulprit(o.Culprit[kind])), o.Kinds[kind], k)
@@ -1242,19 +1342,19 @@ func main() {
 		if os.Getenv("VERIF_C11_DEBUG") != "" {
 			fmt.Fprintf(os.Stderr, "shard %d: init %.2fs, per mode %v\n", shard, tInit.Seconds(), modeNS)
 			if f, err := os.OpenFile("/dev/shm/c11.debug.log", os.O_APPEND|os.O_CREATE|os.O_WRONLY, 0o644); err == nil {
-				fmt.Fprintf(f, "shard %d: started %s init %.2fs loop done after %.2fs evals %d\n", shard, t0.Format("15:04:05.000"), tInit.Seconds(), time.Since(t0).Seconds(), counters["evals"])
+				fmt.Fprintf(f, "shard %d: started %s init %.2fs loop done after %.2fs evals %d per mode %v cpu %v\n", shard, t0.Format("15:04:05.000"), tInit.Seconds(), time.Since(t0).Seconds(), counters["evals"], modeNS, w.cpu)
 				f.Close()
 			}
 		}
 		cleanup() // no orderly close of DuckDB: the process exits now
 		pprof.StopCPUProfile()
-		run.FinishShard(counters, samples.List(), complete)
+		run.FinishShard(counters, append(samples.List(), histSamples.s...), complete)
 		return
 	}
 
-	// soft time cap (a capped run reports exhaustive=false): the budgets are 60 s / 15 min
+	// soft time cap (a capped run reports exhaustive=false): quick is meant to take 40-60 s at moderate load, thorough <= 15 min
 	if os.Getenv("VERIF_DEADLINE_S") == "" {
-		limit := 35 * time.Second
+		limit := 75 * time.Second
 		if !run.Quick() {
 			limit = 13 * time.Minute
 		}
@@ -1289,6 +1389,7 @@ func main() {
 		kind string
 		desc string
 		n    int
+		hist bool
 	}
 	classes := map[string]*classT{}
 	for _, v := range raw {
@@ -1299,6 +1400,22 @@ func main() {
 		var k kase
 		b, _ := json.Marshal(v.Replay)
 		must(json.Unmarshal(b, &k), "raw violation replay")
+		if k.Mode == "hist" {
+			c := w0.minimiseHist(k, kind, &minimRuns)
+			o1, o2 := w0.judge(c), w0.judge(c)
+			if o1.Kinds[kind] == "" || o1.Kinds[kind] != o2.Kinds[kind] {
+				cleanup()
+				ev.Nondeterminism("minimal history for " + v.Signature + " did not reproduce identically")
+			}
+			key := c.histKey(kind)
+			if cl, ok := classes[key]; ok {
+				cl.n += counts[v.Signature]
+			} else {
+				classes[key] = &classT{rep: c, kind: kind, hist: true, n: counts[v.Signature],
+					desc: fmt.Sprintf("one long-lived RetentionHandler, %s, history [%s], background %s: %s", c.scope(), histString(c.Hist), filesString(c.Files), o1.Kinds[kind])}
+			}
+			continue
+		}
 		failsOn := func(ix []int) bool {
 			c := k
 			c.Files = nil
@@ -1342,6 +1459,12 @@ func main() {
 	sort.Strings(keys)
 	for _, key := range keys {
 		cl := classes[key]
+		if cl.hist {
+			for i := 0; i < cl.n; i++ {
+				run.Violate(key, cl.desc, cl.rep)
+			}
+			continue
+		}
 		ws, where, n := w0.probe(cl.rep, cl.kind)
 		minimRuns += n
 		for i := 0; i < cl.n; i++ {
@@ -1354,11 +1477,12 @@ func main() {
 
 	run.Coverage["evaluations"] = counters["evals"]
 	run.Coverage["distinct_nontrivial"] = counters["nontrivial"]
-	tierRule := "quick: http/LocalBackend x 6 policies x all 286 layouts; exec/prefix-backend x 6 policies x 286; direct/LocalBackend on prod/cpu x cutoffs C+{-1000,-999,0,1,1000}ns x 286; direct/prefix-backend on prod/cpu x cutoff C x 286; cycle x 6 policies x the 21 multisets of <=2 hour files"
+	tierRule := "quick: http/LocalBackend x 6 policies x all 286 layouts; exec/prefix-backend x 6 policies x 286; direct/LocalBackend on prod/cpu x cutoffs C+{-1000,-999,0,1,1000}ns x 286; direct/prefix-backend on prod/cpu x cutoff C x 286; cycle x 6 policies x the 21 multisets of <=2 hour files; hist sweeps: " + fmt.Sprint(dims["hist_rule"])
 	if !run.Quick() {
-		tierRule = "thorough: http and exec on both backends x 6 policies x all 286 layouts, http/LocalBackend and exec/prefix-backend also with a clock that is not microsecond aligned (cutoff C+500ns); direct on prod/cpu and prod2/cpu2 x both backends x cutoffs C+{-1000,-999,0,1,1000}ns x 286; cycle x 6 policies x the 56 multisets of <=3 hour files; plus the full product http/LocalBackend x 6 policies x focus measurement (286 layouts of <=3 files) x other measurement of the same database (11 layouts of <=1 file)"
+		tierRule = "thorough: http and exec on both backends x 6 policies x all 286 layouts, http/LocalBackend and exec/prefix-backend also with a clock that is not microsecond aligned (cutoff C+500ns); direct on prod/cpu and prod2/cpu2 x both backends x cutoffs C+{-1000,-999,0,1,1000}ns x 286; cycle x 6 policies x the 56 multisets of <=3 hour files; plus the full product http/LocalBackend x 6 policies x focus measurement (286 layouts of <=3 files) x other measurement of the same database (11 layouts of <=1 file); hist sweeps: " + fmt.Sprint(dims["hist_rule"])
 	}
-	run.Coverage["rule"] = "cases = (mode, backend, policy or target measurement, cutoff offset, layout), enumerated exhaustively, simplest layout first. A layout gives each of prod/cpu, prod/cpu2, prod2/cpu, prod2/cpu2 a multiset of <=3 files over 10 types {hour file, compacted day file} x {entirely below C, straddling C, max==C, max==C-1us, entirely above C}; in every sweep the focus measurement (the policy's, or cpu for a policy without filter) runs through ALL 286 multisets while the other three hold the multisets 95/190/285 places further on (cyclically), so each of them also sees every multiset once. Policies: {prod,prod2} x {no filter, cpu, cpu2} with (retention,buffer) days (30,7),(2,1),(1,0). Modes: http = dry run then confirmed run through the fiber route; exec = ExecutePolicy; direct = deleteOldFiles dry then real with an exact cutoff; cycle = daily compaction.Job, dry run, run, compaction.Job, run. " + tierRule + ". A case is non-trivial when the covered measurements hold at least one file that must go (max(time) < cutoff) and the store holds at least one file that must stay; all cases are pairwise distinct, so distinct_nontrivial = number of non-trivial cases"
+	delete(dims, "hist_rule")
+	run.Coverage["rule"] = "cases = (mode, backend, policy or target measurement, cutoff offset, layout), enumerated exhaustively, simplest layout first. A layout gives each of prod/cpu, prod/cpu2, prod2/cpu, prod2/cpu2 a multiset of <=3 files over 10 types {hour file, compacted day file} x {entirely below C, straddling C, max==C, max==C-1us, entirely above C}; in every sweep the focus measurement (the policy's, or cpu for a policy without filter) runs through ALL 286 multisets while the other three hold the multisets 95/190/285 places further on (cyclically), so each of them also sees every multiset once. Policies: {prod,prod2} x {no filter, cpu, cpu2} with (retention,buffer) days (30,7),(2,1),(1,0). Modes: http = dry run then confirmed run through the fiber route; exec = ExecutePolicy; direct = deleteOldFiles dry then real with an exact cutoff; cycle = daily compaction.Job, dry run, run, compaction.Job, run; hist = a HISTORY on ONE long-lived RetentionHandler (fresh per history, LocalBackend): 2-3 passes from {dry = POST execute dry_run, run = POST execute confirm, exec = ExecutePolicy} and, between two passes, operations on the focus measurement's paths h0,h1 (hour files of one partition) and d0 (compacted day file) from {put = the path is (re)written through LocalBackend.Write with a content class B all older / S straddling / A all newer / E newest==C / M newest==C-1us and a row count that differs from the previous content, trim old|new = DELETE-API-style rewrite in place (DuckDB COPY to .tmp + rename) keeping only the rows older than | at or after the cutoff of that moment, file deleted when nothing stays, rm = file removed, clock+d = the clock and every later cutoff advance}; the other measurements hold a static background (sibling measurement: one expired + one live hour file, other database: one expired file); after EVERY pass the oracle is applied to the store as it is then: confirmed pass -> clauses 1-3, dry pass -> store byte-identical and (files, rows) equal to what a confirmed run of a FRESH handler (other root and SQLite file) removes from a copy of the store; the enumeration prunes only statically (trim/rm of a never written path; an operation overwritten later in the same gap); h0/h1 are interchangeable, so initial layouts give h0 the larger class. " + tierRule + ". A case is non-trivial when the covered measurements hold at least one file that must go (max(time) < cutoff) and the store holds at least one file that must stay (a history: at a pass that is the first one or follows an operation that really changed the store or the clock, and at least one such operation happened); all cases are pairwise distinct, so distinct_nontrivial = number of non-trivial cases"
 	for k, v := range dims {
 		run.Coverage[k] = v
 	}
@@ -1378,6 +1502,10 @@ func main() {
 	run.Coverage["cycle_second_phase_skipped"] = counters["cycle_second_phase_skipped"]
 	run.Coverage["real_report_differs_from_effect"] = counters["real_report_differs_from_effect"]
 	run.Coverage["reported_cutoff_differs"] = counters["reported_cutoff_differs"]
+	run.Coverage["hist"] = map[string]any{"histories_judged": counters["hist_evals"], "histories_nontrivial": counters["hist_nontrivial"], "passes": counters["hist_passes"],
+		"operations_between_passes_that_changed_store_or_clock": counters["hist_gap_ops_effective"], "operations_between_passes_without_effect": counters["hist_gap_ops_noop"],
+		"dry_pass_reference_runs": counters["hist_reference_runs"], "dry_passes_judged_with_a_memoised_reference": counters["hist_reference_memo_hits"], "reference_runs_that_removed_files": counters["hist_reference_runs_removing_files"],
+		"reference_runs_not_clean": counters["hist_reference_run_not_clean"], "reference_differs_from_whole_file_model": counters["hist_reference_differs_from_model"]}
 	run.Coverage["failing_case_oracle_pairs_before_minimisation"] = counters["failing_case_oracle_pairs"]
 	run.Coverage["raw_groups"] = len(raw)
 	run.Coverage["minimisation_runs"] = minimRuns
@@ -1388,8 +1516,11 @@ func main() {
 	run.Assume("the policy's cutoff is now-(retention_days+buffer_days) days (what ExecutePolicy/handleExecute document); the clock read by retention.go is the frozen virtual clock, so the cutoff is exact; SQLite's CURRENT_TIMESTAMP in the execution log is not judged")
 	run.Assume("rows are identified by (time, v); files whose bytes are unchanged hold the generator's rows (validated once per process with an independent arrow-go reader), every other file is decoded with that reader")
 	run.Assume("backend 'prefix' is a test double over the same directory whose List(prefix) matches by string prefix like S3/Azure (where a missing trailing slash would confuse cpu with cpu2); the S3/Azure clients themselves are not driven")
+	run.Assume("hist mode: the content changes between passes are made by the harness with the real LocalBackend.Write/Delete and with the DuckDB COPY + rename of DeleteHandler.rewriteLocalFile; the DELETE and import HTTP APIs themselves are not driven; retention never reads the date in a path, so the day path d0 holds content of hour 06 only; every history has its own handler, store root and SQLite file, so histories are independent of each other")
 	run.Assume("cycle mode runs compaction.Job sequentially before/after retention (no concurrent interleaving); a compaction that does not preserve rows is C09's subject and makes the case skipped, not judged")
 	run.Assume("the real run's own numbers (files_deleted, deleted_count, cutoff_date) are only counted when they differ from the effect; the property constrains the dry run's report")
+	fmt.Printf("C11 hist: histories=%d nontrivial=%d passes=%d effective_gap_ops=%d reference_runs=%d (removing files: %d)\n", counters["hist_evals"], counters["hist_nontrivial"], counters["hist_passes"],
+		counters["hist_gap_ops_effective"], counters["hist_reference_runs"], counters["hist_reference_runs_removing_files"])
 	fmt.Printf("C11 cases=%d judged=%d nontrivial=%d with_deletions=%d files_removed=%d (had to go %d) skipped=%d raw_failures=%d groups=%d minimisation_runs=%d\n",
 		len(tasks), counters["evals"], counters["nontrivial"], counters["cases_with_deletions"], counters["files_removed"], counters["files_that_had_to_go"],
 		counters["skipped"], counters["failing_case_oracle_pairs"], len(raw), minimRuns)
@@ -1433,8 +1564,15 @@ func replay(run *ev.Run) {
 	w := newWorker()
 	o := w.judge(f.Replay)
 	for _, kind := range sortedKinds(o) {
+		if f.Replay.Mode == "hist" {
+			run.Violate(f.Replay.histKey(kind), o.Kinds[kind], f.Replay)
+			continue
+		}
 		ws, _, _ := w.probe(f.Replay, kind)
 		run.Violate(f.Replay.classKey(kind)+"|where="+ws, o.Kinds[kind], f.Replay)
+	}
+	if f.Replay.Mode == "hist" {
+		fmt.Printf("C11 replay history [%s] ", histString(f.Replay.Hist))
 	}
 	fmt.Printf("C11 replay %s files=%s must_go=%d removed=%d dry=(%d files, %d rows) violated=%v %s\n", f.Replay.head(), filesString(f.Replay.Files), o.MustDelete, o.Deleted, o.DryFiles, o.DryRows, sortedKinds(o), o.Skipped)
 	w.close()
